@@ -43,12 +43,22 @@ def check(run):
     must_r = {e: [x for c, ts in sorted(perconstruct[e].items()) for x in (sorted(ts)[0], sorted(ts)[-1], rnd.choice(sorted(ts)))] for e in ECOS}
     fam = vlib.accept_filter(run, exe, {e: ["1", "1.0", "1.0.0", "2", "1.5", "v1.0.0", "0.0.1", "2.0.0.rc1", "2.0.0-rc1", "1.0.0-beta", "3.0.rc2", "1.0a1", "1.0_rc1", "1.0~rc1", "1!1.0", "1:1.0-1", "1.0.0-alpha.1"] for e in ECOS}, name="fam")
     ch = versgen.chains(run)
+    # ranges with 3..8 alternatives / intervals (slices that grow past their capacity, hot-alternative reordering, ...)
+    def many(k, fmt, sep):
+        return sep.join(fmt % (2 * i, 2 * i + 1) for i in range(1, k + 1))
+    for k in range(3, 9):
+        must_r["maven"].append("(,1.0]," + many(k - 1, "[%d.0,%d.0]", ","))
+        for e in ("npm", "composer", "conan", "semver", "cargo", "hex", "gem", "nuget", "pypi"):
+            must_r[e].append(many(k, ">=%d.0.0 <%d.0.0", " || "))
+            must_r[e].append(many(k, ">=%d.0.0, <%d.0.0", " || "))
     nv, nr = (8, 40) if quick else (14, 120)
     # VERS: the same constraint text under every scheme that accepts its versions (history across schemes)
     bodies = [">=1.0.0|<2.0.0", ">=1.0.0-beta1|<1.0.0-beta3|>=1.0.0-RC1|<1.0.0", "=1.0|!=1.1|>2.0", ">=1.0~rc1|<2.0.7", "<1.0.0-alpha|>=1.0.0|<2.0.9",
               ">=1.0.0-rc.1|<1.0.0-rc.10|>=1.0.0-rc.2",
               # rejected half-way (valid constraints first): what a failed call leaves behind must not reach the next call
-              ">=1.0.0|<2.x!y z", "=1.0|!=1.1|>oops!"]
+              ">=1.0.0|<2.x!y z", "=1.0|!=1.1|>oops!",
+              # an upper and a lower bound on the same version (their relative order decides how bounds pair into intervals)
+              ">=1.0.0|<2.0.0|>=2.0.0|<3.0.0", "<=2.0|>2.0", ">=1.4.0|<=1.4.0"]
     versranges = ["vers:%s/%s" % (s, b) for b in bodies for s in versgen.SCHEMES]
     versprobes = ["1.0.0", "1.0.0-beta5", "1.5", "2.0.7", "1.0.0-rc.3", "v1.0.0", "1.0~rc2"]
     import re
